@@ -106,7 +106,12 @@ let replay ic oc =
              let lines = if is_zero k then lines
                else if k = M.Npos (M.XO M.XH) then List.filter (fun (t, _) -> char_of_tag t = 'S') lines
                else List.filter (fun (t, _) -> let c = char_of_tag t in c = 'S' || c = 'H' || c = 'F') lines in
-             List.iter (fun (t, nums) -> emit oc (char_of_tag t) nums) lines
+             (* constructed states (kind 1): where the safety guard of model/Safety.v is false the crate
+                panics in transposition_hash; the model predicts that panic *)
+             let unsafe = (not (is_zero k)) && not (M.queries_safe s) in
+             List.iter (fun (t, nums) ->
+               if unsafe && char_of_tag t = 'H' then output_string oc "X H\n"
+               else emit oc (char_of_tag t) nums) lines
            | _ -> ())
         | 'Q' ->
           output_string oc l; output_char oc '\n';
